@@ -641,7 +641,6 @@ def ref_parse(data):
     file_nl = None
     prev = None
     enc = [None]
-    prev_level = 0
 
     def fail(reason, lo, hi=None):
         return recs, RefError(reason, lo, lo if hi is None else hi, len(recs))
@@ -703,16 +702,19 @@ def ref_parse(data):
                'line': line, 'options': options, 'content': None}
 
         if kind == 'container':
+            own = options.get('encoding')
+
             if sid == 'diffx':
                 if options.get('version') != '1.0':
                     return fail('unsupported version', line)
-            else:
-                lvl = level_of(sid)
-                # leave every container at this level or deeper
-                enc = enc[:lvl]
 
-            own = options.get('encoding')
-            enc = enc + [own if own is not None else enc[-1]]
+                enc = [own]
+            else:
+                # leave every container at this level or deeper; what is
+                # left is the chain of enclosing containers
+                enc = enc[:level_of(sid)]
+                enc = enc + [own if own is not None else enc[-1]]
+
             rec['span'] = (hstart, pos, pos)
             line += 1
         else:
